@@ -98,6 +98,11 @@ func init() {
 		Decides:    "four crash mechanisms of the front end: (1) a (pointer, bool) result that is nil when the bool is false is dereferenced only where the bool was tested true, at every call site in the module; (2) a tree that came with syntax diagnostics never reaches the checker (the gate under which the node switches may assume well-formed trees); (3) the checker's pattern dispatcher, whose default arm panics, has a case for every pattern node kind except the reviewed ones that cannot reach it; (4) no front-end function is an unconditional self call (unrecoverable stack overflow).",
 		NotCovered: "termination (a progress measure over run-time token streams), index-out-of-range and nil dereferences whose guard depends on run-time values, the narrow node switches whose operand set is determined by one grammar production (counted in the evidence, not decided), the macro and regex front ends beyond rule 1.",
 	}
+	props["C04"] = &PropSpec{
+		Rules:      []string{"lexer/position-owners", "lexer/backup-ascii", "lexer/colorize-slices"},
+		Decides:    "the bookkeeping conditions under which a token's line/column can agree with its byte offset: only the position primitives of the two lexers write the cursor and the line/column counters; every rewind undoes characters that are provably one byte wide (or rewinds to a recorded byte offset with the matching column count) and never crosses a line increment; and the colouring functions emit nothing but slices of their input between recorded offsets, wrapped in colour codes.",
+		NotCovered: "the partition property itself: that the spans the scanners produce are ordered, non-overlapping and cover what they should is a property of a 2500-line state machine over input bytes; skipByte callers (assumed to skip ASCII bytes).",
+	}
 	props["C27"] = &PropSpec{
 		Rules:      []string{"cover/deepcopy", "repl/snapshot-restore", "cache/invalidate"},
 		Decides:    "the rollback half of the property (a rejected input leaves no trace) at the level of record fields: every DeepCopyEnv method of the type environment writes every field of the copy it returns (or the field is read nowhere, or it is rebuilt by the registerAsChild protocol), and the checker's REPL entry point stores back every snapshot it took, on every path, when the input is rejected, and drops the memoised copies of the scope stacks it replaces.",
